@@ -1676,8 +1676,16 @@ def multi_evidence(rng):
              "struct-init", "struct-init", "cmp-result", "cmp-result", "map-and-array", "map-and-array"]
     wordish = ["bool-write", "address-write", "masked-write", "signed-use", "numeric-use", "unsigned-use", "address-use",
                "plain-read", "bytes32-compare", "selector-use"]
+    stringish = ["bit0-read", "len7-read", "data248-read", "bit0-read"]
     for s in slots:
-        pool = wordish if rng.random() < 0.4 else kinds
+        if rng.random() < 0.2:
+            # the string-slot pattern: an array base whose own word is read through the flag / length / data masks,
+            # next to a little word-like evidence (dynamic `bytes` only ever exists as an intermediate fold result)
+            ks = ["dynarray"] + rng.sample(stringish, rng.randint(1, 2)) + rng.sample(wordish, rng.randint(0, 2))
+            for k in dict.fromkeys(ks):
+                branches.append((s, k))
+            continue
+        pool = wordish if rng.random() < 0.4 else kinds + stringish[:3]
         for k in rng.sample(pool, rng.randint(2, 4)):
             branches.append((s, k))
     rng.shuffle(branches)
@@ -1741,6 +1749,12 @@ def multi_evidence(rng):
             a.emit(sp, "SLOAD", 0xe0, "SHR", ("push", 0xa9059cbb, 4), "EQ", 0, "MSTORE")
         elif k == "plain-read":
             a.emit(sp, "SLOAD", 0, "MSTORE")
+        elif k == "bit0-read":
+            a.emit(sp, "SLOAD", 1, "AND", *rng.choice([[0, "MSTORE"], [0x48 + s, "SSTORE"], ["ISZERO", 0, "MSTORE"]]))
+        elif k == "len7-read":
+            a.emit(sp, "SLOAD", 0xfe, "AND", 1, "SHR", *rng.choice([[0, "MSTORE"], [0x48 + s, "SSTORE"]]))
+        elif k == "data248-read":
+            a.emit(sp, "SLOAD", ("push", evm.M256 ^ 0xff, 32), "AND", *rng.choice([[0, "MSTORE"], [0x48 + s, "SSTORE"]]))
         elif k == "bytes32-compare":
             a.emit(sp, "SLOAD", ("push", rng.getrandbits(256), 32), "EQ", 0, "MSTORE")
         elif k == "map-and-array":
